@@ -2,7 +2,8 @@
 //! Correspondence (model = coq/Model/LintGroupCfg.v, extracted):
 //!   T  the generated rule table vs LintGroup::new_curated (config + iter_keys)
 //!   C  random sequences of LintGroupConfig operations on a register bank (real rule names + unknown keys,
-//!      merges, fills, clears, JSON round trips through serde_json and harper-ls Config::from_lsp_config):
+//!      merges, fills, clears, the clear+merge of harper-wasm set_lint_config, JSON round trips through serde_json and
+//!      harper-ls Config::from_lsp_config; complete rule maps minus k rules plus >= k stale keys before a fill):
 //!      every register's map and is_rule_enabled of every probe key
 //!   J  JSON texts (valid, whitespace/escape variants, duplicates, malformed) through serde_json::from_str
 //!   P  serde_json::to_string byte for byte        H  the Hasher::write calls of impl Hash
@@ -147,6 +148,9 @@ enum Op {
     IfUnset(usize, String, bool),
     Clear(usize),
     Merge(usize, usize),
+    /// what harper_wasm::Linter::set_lint_config_from_json does with its stored configuration (register i) and the
+    /// parsed object (register j): clear(), then merge_from
+    WasmSet(usize, usize),
     Fill(usize),
     Curated(usize),
     Default(usize),
@@ -162,6 +166,7 @@ impl Op {
             Op::IfUnset(i, k, v) => format!("i {i} {} {}", hex(k.as_bytes()), b(v)),
             Op::Clear(i) => format!("c {i}"),
             Op::Merge(i, j) => format!("m {i} {j}"),
+            Op::WasmSet(i, j) => format!("w {i} {j}"),
             Op::Fill(i) => format!("f {i}"),
             Op::Curated(i) => format!("k {i}"),
             Op::Default(i) => format!("d {i}"),
@@ -176,6 +181,7 @@ impl Op {
             Op::IfUnset(i, k, v) => json!(["i", i, k, v]),
             Op::Clear(i) => json!(["c", i]),
             Op::Merge(i, j) => json!(["m", i, j]),
+            Op::WasmSet(i, j) => json!(["w", i, j]),
             Op::Fill(i) => json!(["f", i]),
             Op::Curated(i) => json!(["k", i]),
             Op::Default(i) => json!(["d", i]),
@@ -194,6 +200,7 @@ impl Op {
             "i" => Op::IfUnset(u(1)?, s(2)?, b(3)?),
             "c" => Op::Clear(u(1)?),
             "m" => Op::Merge(u(1)?, u(2)?),
+            "w" => Op::WasmSet(u(1)?, u(2)?),
             "f" => Op::Fill(u(1)?),
             "k" => Op::Curated(u(1)?),
             "d" => Op::Default(u(1)?),
@@ -337,6 +344,26 @@ fn run_ops(rep: &mut Report, cx: &Ctx, nregs: usize, probes: &[String], ops: &[O
                         let _ = b1;
                     }
                 }
+                Op::WasmSet(i, j) => {
+                    if i != j {
+                        let (a0, b0) = (cfg_map(&regs[*i]), cfg_map(&regs[*j]));
+                        let (a, b) = two_mut(&mut regs, *i, *j);
+                        // harper-wasm/src/lib.rs set_lint_config_from_json, statement by statement
+                        a.clear();
+                        a.merge_from(b);
+                        let a1 = cfg_map(&regs[*i]);
+                        // every key stays listed; only the explicit values of the new object are set
+                        let mut want: CMap = a0.keys().map(|k| (k.clone(), None)).collect();
+                        for (k, v) in &b0 {
+                            if v.is_some() {
+                                want.insert(k.clone(), *v);
+                            }
+                        }
+                        if a1 != want {
+                            fails.push(("wasm_set".into(), format!("clear + merge_from: {} <- {} gave {}", dump_map(&a0), dump_map(&b0), dump_map(&a1))));
+                        }
+                    }
+                }
                 Op::Fill(i) => {
                     let user = cfg_map(&regs[*i]);
                     regs[*i].fill_with_curated();
@@ -414,6 +441,142 @@ fn bucket(n: usize) -> &'static str {
     }
 }
 
+/// A client that persists the COMPLETE rule map (every entry explicit), read by a harper whose rule set has moved
+/// on: `absent` curated rules are missing from it and `stale` keys name no rule.  Returns (absent, stale, flips):
+/// the configuration is  curated - absent + stale, with `flips` overriding some defaults.  |stale| is chosen
+/// around |absent| (one fewer / equal / more) so that the entry COUNT is below, at and above the number of rules.
+fn full_map_parts(cx: &Ctx, r: &mut Rng) -> (Vec<String>, CMap, CMap) {
+    let k = *r.pick(&[0usize, 1, 1, 1, 2, 2, 3, 5]);
+    let mut absent: BTreeSet<String> = BTreeSet::new();
+    while absent.len() < k {
+        // rules worth losing: the ones whose lints are common, else any
+        if r.chance(1, 2) {
+            absent.insert(r.s(&["SpellCheck", "SentenceCapitalization", "RepeatedWords", "AnA", "Spaces", "LongSentences", "UnclosedQuotes", "CorrectNumberSuffix"]).to_string());
+        } else {
+            absent.insert(r.pick(&cx.names).clone());
+        }
+    }
+    let m = match r.below(6) {
+        0 => k.saturating_sub(1),
+        1 | 2 => k,
+        3 => k + 1,
+        _ => k + r.below(5),
+    };
+    let mut stale = CMap::new();
+    while stale.len() < m {
+        let key = match r.below(4) {
+            0 => r.s(UNKNOWN_KEYS).to_string(),
+            1 => format!("Retired{}", r.below(50)),
+            2 => format!("{}Old", r.pick(&cx.names)),
+            _ => r.pick(&cx.names).to_lowercase(),
+        };
+        if !cx.curated.contains_key(&key) {
+            stale.insert(key, Some(r.chance(1, 2)));
+        }
+    }
+    let mut flips = CMap::new();
+    let dens = *r.pick(&[0usize, 0, 3, 10, 60, 100]);
+    for n in &cx.names {
+        if !absent.contains(n) && r.below(100) < dens {
+            flips.insert(n.clone(), Some(r.chance(1, 3)));
+        }
+    }
+    (absent.into_iter().collect(), stale, flips)
+}
+fn full_map(cx: &Ctx, absent: &[String], stale: &CMap, flips: &CMap) -> CMap {
+    let mut m = cx.curated.clone();
+    for (k, v) in flips {
+        if m.contains_key(k) {
+            m.insert(k.clone(), *v);
+        }
+    }
+    for k in absent {
+        m.remove(k);
+    }
+    for (k, v) in stale {
+        if !cx.curated.contains_key(k) {
+            m.insert(k.clone(), *v);
+        }
+    }
+    m
+}
+/// ... as an operation sequence: new_curated(), unset the absent rules, set the stale keys and a few flips, then
+/// fill_with_curated (sometimes after a JSON round trip or on a copy; sometimes twice)
+fn full_map_ops(cx: &Ctx, r: &mut Rng) -> (usize, Vec<String>, Vec<Op>, String) {
+    let nregs = 3;
+    let i = r.below(nregs);
+    let j = (i + 1 + r.below(nregs - 1)) % nregs;
+    let (absent, stale, flips) = full_map_parts(cx, r);
+    let mut ops = vec![Op::Curated(i)];
+    let mut edits: Vec<Op> = vec![];
+    for k in &absent {
+        edits.push(Op::Unset(i, k.clone()));
+    }
+    for (k, v) in &stale {
+        edits.push(Op::Set(i, k.clone(), v.unwrap_or(true)));
+    }
+    for (k, v) in flips.iter().take(6) {
+        edits.push(Op::Set(i, k.clone(), v.unwrap_or(false)));
+    }
+    // any order of the edits gives the same map
+    for n in (1..edits.len()).rev() {
+        edits.swap(n, r.below(n + 1));
+    }
+    ops.extend(edits);
+    let target = match r.below(5) {
+        0 => {
+            ops.push(Op::Json(i));
+            i
+        }
+        1 => {
+            ops.push(Op::Copy(j, i));
+            j
+        }
+        _ => i,
+    };
+    ops.push(Op::Fill(target));
+    match r.below(5) {
+        0 => ops.push(Op::Fill(target)),
+        1 => {
+            // the filled map is itself a complete map: take a rule away, add a key, fill again
+            ops.push(Op::Unset(target, r.pick(&cx.names).clone()));
+            ops.push(Op::Set(target, format!("Retired{}", 50 + r.below(50)), true));
+            ops.push(Op::Fill(target));
+        }
+        _ => {}
+    }
+    let mut probes: BTreeSet<String> = absent.iter().cloned().collect();
+    probes.extend(stale.keys().cloned());
+    for _ in 0..3 {
+        probes.insert(r.pick(&cx.names).clone());
+    }
+    let label = format!(
+        "full_map:absent={},entries {} rule count",
+        bucket(absent.len()),
+        match stale.len().cmp(&absent.len()) {
+            std::cmp::Ordering::Less => "below",
+            std::cmp::Ordering::Equal => "equal to",
+            std::cmp::Ordering::Greater => "above",
+        }
+    );
+    (nregs, probes.into_iter().collect(), ops, label)
+}
+fn full_map_search(cx: &Ctx, r: &mut Rng, text: String) -> Search {
+    let (absent, stale, mut flips) = full_map_parts(cx, r);
+    // single-switch runs dominate the cost: keep most of these configurations sparse in enabled rules
+    if r.chance(3, 4) {
+        let keep: BTreeSet<String> = (0..r.range(3, 25)).map(|_| r.pick(&cx.names).clone()).collect();
+        for n in &cx.names {
+            if !keep.contains(n) {
+                flips.insert(n.clone(), Some(false));
+            }
+        }
+    }
+    let cfg = full_map(cx, &absent, &stale, &flips);
+    let toggle = if !absent.is_empty() && r.chance(1, 2) { r.pick(&absent).clone() } else { r.pick(&cx.names).clone() };
+    Search { text, parser: if r.chance(1, 4) { "markdown".into() } else { "plain".into() }, cfg, unknown: CMap::new(), toggle, part_seed: r.next() }
+}
+
 fn random_ops(cx: &Ctx, r: &mut Rng) -> (usize, Vec<String>, Vec<Op>) {
     let nregs = 3;
     let n = if r.chance(1, 8) { r.below(3) } else { r.range(3, 14) };
@@ -426,6 +589,7 @@ fn random_ops(cx: &Ctx, r: &mut Rng) -> (usize, Vec<String>, Vec<Op>) {
         let k = cx.small_key(r);
         let b = r.chance(1, 2);
         let op = match r.below(if heavy { 20 } else { 17 }) {
+            0..=4 if r.chance(1, 12) => Op::WasmSet(i, j),
             0..=4 => Op::Set(i, k.clone(), b),
             5..=6 => Op::Unset(i, k.clone()),
             7..=8 => Op::IfUnset(i, k.clone(), b),
@@ -1136,9 +1300,9 @@ fn wasm_case(rep: &mut Report, cx: &Ctx, w: &mut harper_wasm::Linter, s: &Search
 }
 
 /// harper_wasm::Linter over a HISTORY of settings objects: the stored configuration after each
-/// set_lint_config_from_json is the model's  merge_seq (clear curated) [u1..un]  (correspondence, as a C case:
-/// register 0 is the Linter's configuration, register 1 the object being sent), and lint then follows the
-/// last explicit choice per rule (C11_wasm_history).
+/// set_lint_config_from_json is the model's  wasm_seq (clear curated) [u1..un]  (correspondence, as a C case with
+/// the `w` operation: register 0 is the Linter's configuration, register 1 the object being sent), and lint then
+/// follows the LAST object alone: its explicit choice per rule, else the curated default (C11_wasm_history).
 fn wasm_history_case(rep: &mut Report, cx: &Ctx, objs: &[CMap], text: &str, origin: &str) {
     rep.eval();
     let inp = json!({"kind": "wasm_history", "objs": objs.iter().map(map_json).collect::<Vec<_>>(), "text": text, "origin": origin});
@@ -1156,7 +1320,7 @@ fn wasm_history_case(rep: &mut Report, cx: &Ctx, objs: &[CMap], text: &str, orig
                 ops.push(Op::Set(1, k.clone(), *b));
             }
         }
-        ops.push(Op::Merge(0, 1));
+        ops.push(Op::WasmSet(0, 1));
     }
     let mut probes: Vec<String> = vec!["SpellCheck".into()];
     for u in objs {
@@ -1181,8 +1345,8 @@ fn wasm_history_case(rep: &mut Report, cx: &Ctx, objs: &[CMap], text: &str, orig
     let bits = |c: &LintGroupConfig| format!("b{}", probes.iter().map(|k| if c.is_rule_enabled(k) { '1' } else { '0' }).collect::<String>());
     rep.case(&case_line, &format!("{} {} | {} {}", dump_map(&stored), dump_map(&reg1), bits(&stored_cfg), bits(&mk_cfg(&reg1))));
     // PROPERTY oracle: "set the linter's current configuration" — after the last settings object, a rule it
-    // leaves null / does not mention takes its curated default, a rule it sets explicitly takes that value.
-    // (The code merges instead: C11_wasm_history.  Only an observable difference is reported.)
+    // leaves null / does not mention takes its curated default, a rule it sets explicitly takes that value
+    // (C11_wasm_history_curated; this was finding FC11a until b67a243: the class name is kept for the regression).
     if let Some(lastu) = objs.last() {
         for (k, dflt) in &cx.curated {
             let want = match lastu.get(k) {
@@ -1347,7 +1511,7 @@ fn replay_input(rep: &mut Report, cx: &Ctx, ls: &mut Linters, wasm: &mut Option<
             let nregs = v["nregs"].as_u64().unwrap_or(3) as usize;
             if ops.iter().all(|o| match o {
                 Op::Set(i, ..) | Op::Unset(i, ..) | Op::IfUnset(i, ..) | Op::Clear(i) | Op::Fill(i) | Op::Curated(i) | Op::Default(i) | Op::Json(i) => *i < nregs,
-                Op::Merge(i, j) | Op::Copy(i, j) => *i < nregs && *j < nregs,
+                Op::Merge(i, j) | Op::WasmSet(i, j) | Op::Copy(i, j) => *i < nregs && *j < nregs,
             }) {
                 run_ops(rep, cx, nregs, &probes, &ops, "replay");
             }
@@ -1357,6 +1521,13 @@ fn replay_input(rep: &mut Report, cx: &Ctx, ls: &mut Linters, wasm: &mut Option<
         "hash" => run_hash(rep, &json_map(&v["cfg"])),
         "dispatch" => run_dispatch(rep, v["seed"].as_u64().unwrap_or(0), "replay"),
         "search" => search_case(rep, cx, ls, &Search::from_json(v)),
+        // compact form of a complete rule map: curated - absent + stale, `flips` override defaults
+        "search_full" => {
+            let absent: Vec<String> = v["absent"].as_array().map(|a| a.iter().filter_map(|x| x.as_str().map(|s| s.to_string())).collect()).unwrap_or_default();
+            let mut s = Search::from_json(v);
+            s.cfg = full_map(cx, &absent, &json_map(&v["stale"]), &json_map(&v["flips"]));
+            search_case(rep, cx, ls, &s);
+        }
         "wasm" => {
             if wasm.is_none() {
                 *wasm = Some(harper_wasm::Linter::new(harper_wasm::Dialect::American));
@@ -1377,7 +1548,7 @@ fn replay_input(rep: &mut Report, cx: &Ctx, ls: &mut Linters, wasm: &mut Option<
 fn main() {
     let (a, corpus) = hv::cli();
     let mut rep = Report::new(&a.out);
-    rep.rule = "correspondence: T curated table; C random LintGroupConfig operation sequences (3 registers, 0-14 ops over real rule names + unknown/odd keys incl. NUL, quotes, control characters, astral; merges, clears, fills, JSON round trips via serde_json and Config::from_lsp_config); J JSON texts (valid with whitespace/escape/surrogate/duplicate variants + 13 fault classes); P printer; H Hasher::write calls; L LintGroup::lint over groups of test rules built with add/add_pattern_linter/merge_from/set_all_rules_to (names collide, one name in both maps, pattern lints before their chunk). search: curated LintGroup on generated documents (plain 3/4, markdown 1/4) x random on/off/null/absent configurations at six densities: fresh-vs-long-lived, union of single-switch runs, all-off/clear/empty silent, two-way partition (multiset + order), toggle (others keep value and order), unknown keys, save/fill/lint/restore incl. harper-ls generate_diagnostics/generate_code_actions and harper_wasm::Linter; histories of 1-4 settings objects sent to one harper_wasm::Linter (stored configuration = correspondence; last object decides = property oracle, known finding FC11a). thorough adds every one-character key U+0000..U+07FF + a sweep of higher planes through printer/parser/LSP route and 150 documents with all rules on (every rule singly). non-trivial = distinct (text, configuration) with >=2 enabled rules and >=1 lint, or op sequence >=3, or accepted JSON text, or dispatch case with lints".into();
+    rep.rule = "correspondence: T curated table; C random LintGroupConfig operation sequences (3 registers, 0-14 ops over real rule names + unknown/odd keys incl. NUL, quotes, control characters, astral; merges, clears, fills, JSON round trips via serde_json and Config::from_lsp_config); J JSON texts (valid with whitespace/escape/surrogate/duplicate variants + 13 fault classes); P printer; H Hasher::write calls; L LintGroup::lint over groups of test rules built with add/add_pattern_linter/merge_from/set_all_rules_to (names collide, one name in both maps, pattern lints before their chunk). search: curated LintGroup on generated documents (plain 3/4, markdown 1/4) x random on/off/null/absent configurations at six densities: fresh-vs-long-lived, union of single-switch runs, all-off/clear/empty silent, two-way partition (multiset + order), toggle (others keep value and order), unknown keys, save/fill/lint/restore incl. harper-ls generate_diagnostics/generate_code_actions and harper_wasm::Linter; histories of 1-4 settings objects (1/5 of them complete rule maps) sent to one harper_wasm::Linter (stored configuration = correspondence through the `w` operation; last object alone decides = property oracle, C11_wasm_history_curated; was finding FC11a, fixed by b67a243). complete rule maps (every entry explicit) with 0-5 curated rules missing and stale keys standing in so that the entry count is below / at / above the number of rules: as C operation sequences ending in fill_with_curated (200 / 3000) and as search configurations incl. generate_diagnostics (10 / 150). thorough adds every one-character key U+0000..U+07FF + a sweep of higher planes through printer/parser/LSP route and 150 documents with all rules on (every rule singly). non-trivial = distinct (text, configuration) with >=2 enabled rules and >=1 lint, or op sequence >=3, or accepted JSON text, or dispatch case with lints".into();
     let cx = Ctx::new();
     let mut ls = Linters { shared: LintGroup::new_curated(cx.dict.clone(), Dialect::American) };
     let mut wasm: Option<harper_wasm::Linter> = None;
@@ -1394,6 +1565,12 @@ fn main() {
     for _ in 0..a.scale(1500, 20000) {
         let (n, probes, ops) = random_ops(&cx, &mut r);
         run_ops(&mut rep, &cx, n, &probes, &ops, "random");
+    }
+    // complete rule maps with rules missing and stale keys standing in (entry count below / at / above the rule count)
+    for _ in 0..a.scale(200, 3000) {
+        let (n, probes, ops, label) = full_map_ops(&cx, &mut r);
+        rep.count(&label);
+        run_ops(&mut rep, &cx, n, &probes, &ops, "full_map");
     }
     for _ in 0..a.scale(1500, 30000) {
         let t = random_json_text(&cx, &mut r);
@@ -1436,18 +1613,39 @@ fn main() {
         let s = random_search(&cx, &mut r);
         search_case(&mut rep, &cx, &mut ls, &s);
     }
+    for _ in 0..a.scale(10, 150) {
+        let text = if r.chance(1, 2) { gen::paragraph(&mut r) } else { gen::document(&mut r) };
+        let s = full_map_search(&cx, &mut r, text);
+        rep.count("search:full_map");
+        search_case(&mut rep, &cx, &mut ls, &s);
+    }
     // harper_wasm::Linter (its construction builds a merged dictionary; a handful of cases)
     {
         let mut w = harper_wasm::Linter::new(harper_wasm::Dialect::American);
         for _ in 0..a.scale(12, 150) {
-            let mut s = random_search(&cx, &mut r);
+            let mut s = if r.chance(1, 4) {
+                let text = gen::paragraph(&mut r);
+                full_map_search(&cx, &mut r, text)
+            } else {
+                random_search(&cx, &mut r)
+            };
             s.parser = "plain".into();
             wasm_case(&mut rep, &cx, &mut w, &s);
         }
     }
     for _ in 0..a.scale(10, 120) {
         let n = r.range(1, 4);
-        let objs: Vec<CMap> = (0..n).map(|_| cx.random_map(&mut r, 5)).collect();
+        let objs: Vec<CMap> = (0..n)
+            .map(|_| {
+                if r.chance(1, 5) {
+                    // a client that re-sends the complete rule map
+                    let (absent, stale, flips) = full_map_parts(&cx, &mut r);
+                    full_map(&cx, &absent, &stale, &flips)
+                } else {
+                    cx.random_map(&mut r, 5)
+                }
+            })
+            .collect();
         let text = gen::paragraph(&mut r);
         wasm_history_case(&mut rep, &cx, &objs, &text, "random");
     }
